@@ -206,6 +206,13 @@ func runC14(c *wk.Ctx) {
 		c.Begin(0, "namespace cycles")
 		c14NamespaceCycles(c)
 	}
+	if c.Mine(1) {
+		// default values that lead back to their own property only through a reference into another namespace: such a
+		// graph has no finite value for an input that leaves the property out, so linking refuses it - or everything
+		// still terminates
+		c.Begin(1, "default loops closed by a namespaced reference")
+		c04CrossNamespace(c, "C14")
+	}
 	tricky := gen.TrickyShapes()
 	n := c.N(2500, 800000)
 	c.Cases(n, func(idx int64, r *wk.Rand) {
